@@ -155,6 +155,60 @@ def gen_grammar(rng, vocab, pref_uri, wellformed=None):
     return (head + open_ + body + close)
 
 
+def gen_geo(rng):
+    """GeoRSS / GML geometries: every element x srsDimension / srsName attribute on it or on its ancestors x coordinate lists of 0..9 numbers
+    (complete and incomplete tuples, non-numeric, separators), inside and outside <georss:where>, well-formed or cut short"""
+    nums = lambda n: rng.choice([" ", ",", "\n", ", "]).join(rng.choice(["45.256", "-71.92", "0", "1e3", "NaN", "x", "180", "-90.5", ""]) if rng.random() < 0.15 else str(round(rng.uniform(-90, 90), 3)) for _ in range(n))
+    def srs():
+        return rng.choice(["", "", ' srsDimension="3"', ' srsDimension="2"', ' srsDimension="x"', ' srsDimension=""', ' srsName="EPSG:4326"', ' srsName="urn:ogc:def:crs:EPSG:6.6:4326" srsDimension="3"',
+                           ' srsName="EPSG:4979" srsDimension="3"', ' srsdimension="3"'])
+    def geom():
+        k = rng.random()
+        n = rng.randint(0, 9)
+        if k < 0.25:
+            return "<gml:Point%s><gml:pos%s>%s</gml:pos></gml:Point>" % (srs(), srs(), nums(n))
+        if k < 0.45:
+            return "<gml:LineString%s><gml:posList%s>%s</gml:posList></gml:LineString>" % (srs(), srs(), nums(n))
+        if k < 0.65:
+            return "<gml:Polygon%s><gml:exterior><gml:LinearRing><gml:posList%s>%s</gml:posList></gml:LinearRing></gml:exterior></gml:Polygon>" % (srs(), srs(), nums(n))
+        if k < 0.75:
+            return "<gml:Envelope%s><gml:lowerCorner>%s</gml:lowerCorner><gml:upperCorner>%s</gml:upperCorner></gml:Envelope>" % (srs(), nums(rng.randint(0, 3)), nums(rng.randint(0, 3)))
+        tag = rng.choice(["point", "line", "polygon", "box"])
+        return "<georss:%s>%s</georss:%s>" % (tag, nums(n), tag)
+    items = ""
+    for _ in range(rng.randint(1, 3)):
+        g = geom()
+        if rng.random() < 0.7:
+            g = "<georss:where%s>%s</georss:where>" % (srs(), g)
+        items += "<item><title>t</title>%s</item>" % g
+    doc = ('<rss version="2.0" xmlns:georss="http://www.georss.org/georss" xmlns:gml="http://www.opengis.net/gml"><channel>%s%s</channel></rss>'
+           % (geom() if rng.random() < 0.3 else "", items))
+    if rng.random() < 0.2:
+        doc = doc[:rng.randrange(len(doc))]
+    return doc.encode("utf-8")
+
+
+def gen_entities(rng):
+    """documents whose DOCTYPE has an internal subset declaring general entities of every value shape -- plain text, a well-formed or MALFORMED
+    character reference (&#xyz; &#x; &#12ab; &#; &#99999999999; &#xD800;), nested, empty, quoted either way -- and whose content references them"""
+    vals = ["text", "", "&#169;", "&#x41;", "&#xyz;", "&#x;", "&#12ab;", "&#deg;", "&#99999999999;", "&#xD800;", "&#1114112;", "&#0;", "&#-1;", "&amp;", "&e0;&e0;", "<b>x</b>", "a &#38; b", "%p;"]
+    n = rng.randint(1, 5)
+    decls = []
+    for i in range(n):
+        v = rng.choice(vals)
+        q = "'" if rng.random() < 0.15 and "'" not in v else '"'
+        decls.append("<!ENTITY e%d %s%s%s>" % (i, q, v, q))
+    sep = rng.choice(["\n", "\n", "", " ", "\r\n"])
+    root = rng.choice(["rss", "feed"])
+    doctype = "<!DOCTYPE %s [%s%s%s]>" % (root, sep, sep.join(decls), sep)
+    refs = lambda: "".join(rng.choice(["&e%d;" % rng.randrange(n), "x ", "&amp;", "&#169;", "&e%d; " % rng.randrange(n)]) for _ in range(rng.randint(1, 4)))
+    if root == "rss":
+        body = '<rss version="2.0"><channel><title>%s</title><item><title>%s</title><description>%s</description><link>http://example.org/?%s</link></item></channel></rss>' % (refs(), refs(), refs(), refs())
+    else:
+        body = '<feed xmlns="http://www.w3.org/2005/Atom"><title>%s</title><entry><title type="html">%s</title><summary>%s</summary><link href="http://example.org/?%s"/></entry></feed>' % (refs(), refs(), refs(), refs())
+    return (rng.choice(['<?xml version="1.0"?>\n', "", '<?xml version="1.0" encoding="utf-8"?>']) + doctype + rng.choice(["\n", ""]) + body).encode("utf-8")
+
+
 # ------------------------------------------------------------------------------------------------ other input streams
 _CORPUS = None
 
@@ -402,7 +456,11 @@ FORMS = ["bytes", "bytes", "stream", "short", "str"]
 
 def gen_case(rng, vocab, pref_uri):
     k = rng.random()
-    if k < 0.55:
+    if k < 0.08:
+        data, stream = gen_geo(rng), "grammar"
+    elif k < 0.16:
+        data, stream = gen_entities(rng), "grammar"
+    elif k < 0.55:
         data, stream = gen_grammar(rng, vocab, pref_uri).encode("utf-8", "surrogatepass" if False else "replace"), "grammar"
     elif k < 0.75:
         data, stream = gen_mutated_corpus(rng), "corpus-mutation"
@@ -430,7 +488,7 @@ def search(ctx, focus=None):
         failures += judge(data, headers, loose, opts, form, stream, rng)
     dist["handler_vocabulary"] = len(vocab)
     return {"evaluations": n, "distinct_nontrivial": len(distinct), "failures": failures, "distribution": dist,
-            "rule": "four input streams: (1) grammar fuzz over the handler vocabulary read from the tree (every _start_/_end_ name mapped back to prefix:local; random nesting, attributes, "
+            "rule": "GeoRSS / GML geometries x srsDimension / srsName x 0-9 ordinates; DOCTYPE internal subsets declaring entities of every value shape (incl. malformed character references) referenced in the content; four input streams: (1) grammar fuzz over the handler vocabulary read from the tree (every _start_/_end_ name mapped back to prefix:local; random nesting, attributes, "
                     "text classes incl. numbers, dates, references of every class, CDATA, markup; balanced and unbalanced / unclosed / stray-end-tag / mismatched / self-nested), "
                     "(2) byte-level mutations of the repository's test corpus, (3) JSON of arbitrary shape incl. wrong types at every documented key, (4) arbitrary binary with every BOM "
                     "and declared / undeclared encodings; x response_headers alphabets x both back ends x the 8 option combinations (+ defaults) x delivery {bytes, BytesIO, short-read "
